@@ -138,7 +138,11 @@ impl BDF {
         let diff = xend - x;
         let direction = diff.signum();
 
-        let hmax = self.max_step.unwrap_or_else(|| (xend - x).abs()).abs();
+        let mut hmax = self.max_step.unwrap_or_else(|| (xend - x).abs()).abs();
+        // Never larger than the interval: keeps the initial-step probe inside [x0, xend]
+        if hmax > (xend - x).abs() {
+            hmax = (xend - x).abs();
+        }
         let hmin = self.min_step.unwrap_or(0.0).abs();
 
         let mut evals = Evals::new();
